@@ -252,6 +252,9 @@ type c32Scenario struct {
 	HSEdits    []hsEdit    `json:"hs_edits,omitempty"` // structure-aware faults: a field inside a clear-text handshake message emptied / overwritten / dropped / repeated, lengths fixed up
 	Inject     []recInject `json:"inject,omitempty"`   // well-framed short records inserted at record boundaries (also in the protected phase)
 	Sweep      bool        `json:"sweep,omitempty"`    // part of a systematic offset sweep (thorough tier)
+	// PSK > 0 (corrupt mode, client with session cache): a clean first connection fills the cache; the ClientHello of the
+	// second, disturbed connection is re-written to offer two PSK identities with (PSK-1) as the binder arrangement
+	PSK int `json:"psk,omitempty"`
 	Tape       []int       `json:"tape,omitempty"`
 }
 
@@ -296,6 +299,15 @@ func genC32(seed uint64, tier string) any {
 			}
 		}
 		if r.Chance(1, 8) {
+			sc.PSK = 1 + r.Intn(4)
+			sc.Client.Cache, sc.Client.NoTickets, sc.Server.NoTickets = true, false, false
+			sc.Client.MinVersion, sc.Client.MaxVersion, sc.Server.MinVersion, sc.Server.MaxVersion = 0, 0, 0, 0
+			sc.Client.Suites, sc.Server.Suites, sc.Client.ForceSuites, sc.Fingerprint = nil, nil, false, false
+			if r.Bool() {
+				n = 0
+			}
+		}
+		if r.Chance(1, 8) {
 			sc.KeyUpdateBy = 1 + r.Intn(2)
 			sc.EPipe = r.Chance(3, 4)
 			if r.Chance(2, 3) {
@@ -332,6 +344,16 @@ func genC32(seed uint64, tier string) any {
 				}
 				if e.Op == "echo_sid" {
 					e.Dir, e.Msg = 1, 0
+				} else if r.Chance(1, 2) {
+					// aim at a message type rather than a position in the flight
+					if e.Dir == 0 {
+						e.Type = []int{1, 11, 15, 16}[r.Intn(4)]
+					} else {
+						e.Type = []int{2, 4, 11, 12, 12, 13, 22}[r.Intn(7)]
+					}
+				}
+				if e.Op == "set" && r.Chance(1, 2) {
+					e.Val = r.Intn(10) // small code points: other members of the same enumeration
 				}
 				if r.Chance(1, 2) {
 					e.Ext = []int{51, 43, 41, 13, 10, 16, 0, 45, 11, 5, 0xff01, 35}[r.Intn(12)]
@@ -602,6 +624,28 @@ func c32Configs(sc *c32Scenario, run *simRun) (*tls.Config, *tls.Config) {
 	return ccfg, scfg
 }
 
+// c32Warm (PSK scenarios): a clean first connection over the same simulator fills a harness-owned session cache; it
+// returns the rewriter for the second connection's ClientHello (nil when there is no TLS 1.3 session to offer).
+func c32Warm(sc *c32Scenario, run *simRun, ccfg, scfg *tls.Config) *pskRewriter {
+	if sc.PSK == 0 {
+		return nil
+	}
+	cache := &simCache{cur: map[string]*tls.ClientSessionState{}}
+	ccfg.ClientSessionCache = cache
+	startConn(run, "warm", ccfg, scfg, NetCfg{}, nil)
+	run.S.Run()
+	cur := cache.cur[serverName]
+	if cur == nil {
+		return nil
+	}
+	v, suite := tls.VerifSessionParams(cur)
+	if v != vTLS13 {
+		return nil
+	}
+	secret, nonce := tls.VerifSessionSecret(cur)
+	return &pskRewriter{Suite: suite, Secret: secret, Nonce: nonce, Extra: kit.NewRng(sc.Seed ^ 0x9517).Bytes(60 + int(sc.Seed%100)), BinderMode: sc.PSK - 1}
+}
+
 // genuineStreams runs the scenario without faults and returns both directions'
 // byte streams (the simulation is deterministic, so the faulted run reproduces
 // them exactly up to the first fault).
@@ -612,6 +656,7 @@ func genuineStreams(sc *c32Scenario) (c2s, s2c []byte) {
 	vsync.Mode = vsync.ModeLockstep
 	defer func() { vsync.Mode = vsync.ModeReal; vsync.Sched = nil }()
 	ccfg, scfg := c32Configs(sc, run)
+	c32Warm(sc, run, ccfg, scfg)
 	cn, sn := s.Pipe("c", "s", sc.Net.params(), sc.Net.params())
 	ce := &c32End{conn: tls.Client(cn, ccfg), net: cn}
 	se := &c32End{conn: tls.Server(sn, scfg), net: sn}
@@ -697,6 +742,7 @@ func execC32(t *testing.T, scAny any, keepLog bool) *Outcome {
 		defer func() { vsync.Mode = vsync.ModeReal; vsync.Sched = nil }()
 		okHSPossible := true
 		ccfg, scfg := c32Configs(sc, run)
+		pskRW := c32Warm(sc, run, ccfg, scfg)
 		cn, sn := s.Pipe("c", "s", sc.Net.params(), sc.Net.params())
 		cn.EPipe, sn.EPipe = sc.EPipe, sc.EPipe
 		var ends []*c32End
@@ -755,7 +801,11 @@ func execC32(t *testing.T, scAny any, keepLog bool) *Outcome {
 					}
 				}
 			}
-			cn.SetFilter(chainFilter{chainFilter{hsf[0], editFilters[0]}, chainFilter{filters[0], injFilters[0]}})
+			var c2s kit.Filter = chainFilter{chainFilter{hsf[0], editFilters[0]}, chainFilter{filters[0], injFilters[0]}}
+			if pskRW != nil {
+				c2s = chainFilter{pskRW, c2s}
+			}
+			cn.SetFilter(c2s)
 			sn.SetFilter(chainFilter{chainFilter{hsf[1], editFilters[1]}, chainFilter{filters[1], injFilters[1]}})
 			ce := &c32End{conn: tls.Client(cn, ccfg), net: cn, keyUpdate: sc.KeyUpdateBy == 1}
 			se := &c32End{conn: tls.Server(sn, scfg), net: sn, keyUpdate: sc.KeyUpdateBy == 2}
@@ -808,6 +858,10 @@ func execC32(t *testing.T, scAny any, keepLog bool) *Outcome {
 			})
 		}
 		s.Run()
+		if pskRW != nil && pskRW.Fired {
+			o.count(fmt.Sprintf("fault.two_psk_identities_binder_mode_%d", pskRW.BinderMode), 1)
+			fired++
+		}
 		for d := 0; d < 2; d++ {
 			if filters[d] != nil {
 				for _, k := range filters[d].Fired {
@@ -1003,7 +1057,7 @@ func init() {
 		Stub:   []string{"transport", "clock", "entropy", "stub peer in stub mode"},
 		Assume: []string{"a call that returns because its deadline expired has returned"},
 		FaultKinds: []string{"fault.byte_flip", "fault.byte_trunc", "fault.byte_insert", "fault.byte_dup", "fault.stub_kind_0", "fault.stub_kind_1", "fault.stub_kind_2", "fault.stub_kind_3", "fault.stub_stall", "fault.transport_killed", "fault.handshake_message_reframed", "fault.key_update_then_transport_closed",
-			"fault.handshake_field_empty", "fault.handshake_field_shrink", "fault.handshake_field_set", "fault.handshake_field_setvec", "fault.handshake_field_echo_sid", "fault.handshake_field_dropext", "fault.handshake_field_dupext", "fault.record_injected",
+			"fault.handshake_field_empty", "fault.handshake_field_shrink", "fault.two_psk_identities_binder_mode_0", "fault.two_psk_identities_binder_mode_1", "fault.two_psk_identities_binder_mode_2", "fault.two_psk_identities_binder_mode_3", "fault.handshake_field_set", "fault.handshake_field_setvec", "fault.handshake_field_echo_sid", "fault.handshake_field_dropext", "fault.handshake_field_dupext", "fault.record_injected",
 			"net.read_deadline_expired", "probe.partial_log_marshalled", "probe.sweep_runs", "probe.sweep_runs_fault_inside_transcript", "probe.handshakes_ok_0", "probe.handshakes_ok_1", "probe.handshakes_ok_2"},
 		NotInjected: "no storage or crash-restart; allocation failure has no seam in Go",
 		GenAt:       genC32At,
